@@ -80,6 +80,43 @@ def extra_terms():
     return out
 
 
+def exotic_positions():
+    """well-typed placements of the rarely used node kinds (paths, lambdas, custom-namespace calls with positional / named
+    parameters) in EVERY argument position of every constructor of the typed grammar, by the position's type"""
+    title, score = typed.F("title"), typed.F("score")
+    custom = [("custom-ns", T.call("f", score, ns=("ns",))), ("named", T.call("f", T.named("p", score), ns=("ns",)))]
+    by_type = {
+        C18.S: [("path", T.path("blog", "title")), ("path", T.path("blog", "owner", "name"))] + custom,
+        C18.I: [("path", T.path("author", "age")), ("path", T.path("blog", "owner", "age"))] + custom,
+        C18.R: [("path", T.path("author", "age"))] + custom,
+        C18.B: [("lambda", T.lam(T.I("comments"), "Any", "c", T.path("c", "flag"))), ("lambda", T.lam(T.I("comments"), "Any")),
+                ("lambda", T.lam(T.I("tags"), "All", "t", T.binop("Eq", T.path("t", "weight"), T.Int(2))))] + custom,
+        C18.TT: custom, C18.D: custom, C18.DUR: custom, C18.G: custom,
+    }
+    default = {C18.S: title, C18.I: score, C18.R: T.Flt("1.5"), C18.B: T.binop("Gt", score, T.Int(0)), C18.TT: typed.dtlit("2020-02-29T23:59:59Z"),
+               C18.D: ("Date", "2020-02-29"), C18.TM: ("Time", "23:59:59"), C18.DUR: ("Duration", "P1D"), C18.G: ("Geography", "POINT(1 2)"),
+               C18.GL: ("Geography", "LINESTRING(1 1,2 2)"), C18.GP: ("Geography", "POLYGON((1 1,1 2,2 2,1 1))"), C18.LI: T.lst(T.Int(0), T.Int(1)),
+               C18.LS: T.lst(T.Str("a"), T.Str("b")), "LX": T.lst(T.Int(0), T.Int(1)), C18.NOW: T.call("now"), "RX": T.Str("^a"), typed.BV: typed.F("flag")}
+    out = []
+    for sig in C18.sigs():
+        if not sig.args or any(a not in default for a in sig.args):
+            continue
+        for i, ty in enumerate(sig.args):
+            for kind, ex in by_type.get(ty, []):
+                args = [default[a] for a in sig.args]
+                args[i] = ex
+                t = sig.build(*args)
+                if sig.ret != C18.B:
+                    t = T.binop("Eq", t, t) if sig.ret not in (C18.LI, "LX", C18.LS) else T.binop("Eq", T.call("length", t), T.Int(1))
+                out.append((kind, t))
+    seen, uniq = set(), []
+    for k, t in out:
+        if t not in seen:
+            seen.add(t)
+            uniq.append((k, t))
+    return uniq
+
+
 def uniq_literals(term):
     """rename literal values only (fields keep their names): returns (term', [value needles])"""
     needles = []
@@ -289,6 +326,20 @@ ADVERSARIAL_NAMES = ["zz_unknown", "keys", "values", "items", "get", "contains_c
                      "__class__", "__mapper__", "_sa_class_manager", "__init__", "columns", "c", "primary_key", "name", "description"]
 
 
+def _exotic_unit(items):
+    django_h.setup()
+    acc = Acc()
+    for kind, t in items:
+        try:
+            to_odata(t)
+            _ps.parse(_lx.tokenize(to_odata(t)))
+        except Exception:  # noqa  (not every combination is syntactically a filter, e.g. `x in <lambda>`)
+            acc.count("exotic_not_parseable")
+            continue
+        check(acc, kind if kind in ("path", "lambda") else "exotic:" + kind, t, "relational")
+    return acc
+
+
 def unknown_fields(ctx):
     for nm in ADVERSARIAL_NAMES:
         _unknown_field(ctx, nm)
@@ -343,6 +394,10 @@ def run(ctx):
     for kind, t in extra_terms():
         check(ctx, kind, t, "scalar" if kind.startswith(("literal", "bare", "neg", "named", "custom", "geo")) else "relational")
     ctx.layer("paths-lambdas-named-literals", terms=int(ctx.counts["states"] - before), exhaustive=True)
+    before = ctx.counts["states"]
+    ex = exotic_positions()
+    ctx.pmap(_exotic_unit, [ex[i::32] for i in range(32)])
+    ctx.layer("exotic-kinds-in-every-position", terms=int(ctx.counts["states"] - before), exhaustive=True)
     unknown_fields(ctx)
     ctx.layer("unknown-fields", names=len(ADVERSARIAL_NAMES), exhaustive=True)
     nh = history_layer(ctx)
